@@ -6,6 +6,7 @@ package hotreload
 
 import (
 	"errors"
+	"time"
 
 	"github.com/glyphlang/glyph/internal/zzverif"
 )
@@ -191,3 +192,69 @@ func VerifC19_Twin() {
 	zzverif.Assert(srv.active[0] == 1, "twin")
 	zzverif.Reach("twin")
 }
+
+// ---------------------------------------------------------------------------
+// the polling FileWatcher: every edit that changes the watched file's content
+// is reported by the next poll (and nothing else is), whatever the edit's
+// length and however soon after the previous one it is written - so that
+// ReloadManager gets to see every later valid edit.
+//
+// Under the engine the directory is the model file system (content, size and
+// modification time per file, time from the virtual clock) and the watcher's
+// content digest is taken as collision free; natively the same harness works
+// on a temporary directory with the real SHA-256.
+
+var zzEditGaps = []time.Duration{0, 300 * time.Millisecond, 1100 * time.Millisecond}
+
+func zzWatcherHistory(k int) {
+	zzverif.FSReset()
+	zzverif.FSFile("/w/main.glyph", "version=v0")
+	zzverif.FSFile("/w/notes.txt", "n0")
+	w := NewFileWatcher([]string{zzverif.FSPath("/w")}, nil)
+	if err := w.scan(); err != nil {
+		zzverif.Fail("watcher: initial scan failed")
+	}
+	main := zzverif.FSPath("/w/main.glyph")
+	seen := "version=v0" // content at the last poll
+	present := true
+	for step := 1; step <= k; step++ {
+		gap := zzEditGaps[zzverif.Choice("gap before the edit", len(zzEditGaps))]
+		zzverif.AdvanceClock(gap)
+		if !zzverif.Symbolic() {
+			time.Sleep(gap)
+		}
+		next := seen
+		digit := string(rune('0' + step))
+		switch zzverif.Choice("edit", 6) {
+		case 0: // same length, new content
+			next = "version=v" + digit
+		case 1: // a broken version of the same length ("!!" prefix)
+			next = "!!rsion=v" + digit
+		case 2: // different length
+			next = "version=v" + digit + digit
+		case 3: // rewritten with identical content
+		case 4: // deleted and recreated with new content of the same length
+			zzverif.FSRemove("/w/main.glyph")
+			next = "VERSION=v" + digit
+		case 5: // an unrelated file changes
+			zzverif.FSFile("/w/notes.txt", "n"+digit)
+		}
+		zzverif.FSFile("/w/main.glyph", next)
+		changes := w.detectChanges()
+		n := 0
+		for _, c := range changes {
+			zzverif.Assert(c.Path == main, "watcher: change reported for a file outside the patterns")
+			n++
+		}
+		if next != seen || !present {
+			zzverif.Assert(n == 1, "watcher: an edit that changed the watched file was not reported by the next poll")
+		} else {
+			zzverif.Assert(n == 0, "watcher: change reported although the content is the same")
+		}
+		seen, present = next, true
+	}
+	zzverif.Reach("watcher")
+}
+
+func VerifC19_Watcher2() { zzWatcherHistory(2) }
+func VerifC19_Watcher3() { zzWatcherHistory(3) }
